@@ -53,12 +53,15 @@ def _float_reason(u):
     return any("float" in r or "SInstantSeconds" in r or "total_seconds" in r for r in u["undecided"])
 
 
-def _bounded(name):
+FLOAT_BODIES = ("write_timedelta_i32", "write_datetime_i64", "write_nullable_datetime_i64")
+
+
+def _bounded(name, reason="body computes through float (outside the verifier's subset)"):
     from checks import bounded_time
     bound, n, fails = bounded_time.check_function(name, os.environ.get("VERIF_TIER", "quick"))
     return [{"unit": f"bounded/{name}", "obligations": [], "undecided": [], "paths": 0, "time": 0.0, "functions": [],
              "bounded": {"name": f"bounded/{name}", "bound": bound, "evaluations": n, "failures": fails,
-                         "reason": "body computes through float (outside the verifier's subset)"}}]
+                         "reason": reason}}]
 
 
 def run_unit(spec):
@@ -93,6 +96,11 @@ def run_unit(spec):
         out = [common.summarise(r, [common.function_record(fn)]) for r in L1.verify_writer(reg, fn, reg.writers[arg])]
         if arg in TIME_FUNCS and any(_float_reason(u) for u in out):
             return _bounded(arg)
+        if arg in FLOAT_BODIES:
+            # proved under the standard model of binary64 rounding (kvc/fpmodel.py); the native grid stays on as
+            # validation of that assumption and as the witness finder for counter-models that are only candidates
+            out += _bounded(arg, "validation of the float model (the function is proved under the standard model of "
+                                 "IEEE-754 rounding)")
         return out
     if kind == "l1r":
         fn = getattr(R, arg)
